@@ -99,5 +99,120 @@ theorem inv_newWithBacking (e : Endian) (b : Backing) : Inv (newWithBacking e b)
 theorem abs_new (e : Endian) : abs (new e) = fun _ => none := rfl
 theorem abs_newWithBacking (e : Endian) (b : Backing) : abs (newWithBacking e b) = b.get8 := rfl
 
+
+/-! ### several handles and clones (in the model a clone is the same persistent value) -/
+
+/-- one operation on one memory: new state and answer -/
+def stepModel (m : Mem) : Op → Mem × Ans
+  | .store a v =>
+    match store m a v with
+    | .ok m' => (m', .stored)
+    | .err _ => (m, .rejected)
+    | .panic => (m, .fault)
+  | .load a n =>
+    (m, match load m a n with
+        | .ok r => .loaded r
+        | _ => .fault)
+  | .setPerm a len p => (setPermissions m a len p, .permSet)
+
+def stepSpec (e : Endian) (b : Bytes) : Op → Bytes × Ans
+  | .store a v =>
+    if v.bits % 8 = 0 ∧ 0 < v.bits then (write b a (bytesOf e v), .stored) else (b, .rejected)
+  | .load a n => (b, .loaded (read b a (n / 8) e))
+  | .setPerm _ _ _ => (b, .permSet)
+
+theorem step_agree {m : Mem} (I : Inv m) (op : Op) (hd : op.inDomain) :
+    Inv (stepModel m op).1 ∧ (stepModel m op).1.endian = m.endian ∧
+    abs (stepModel m op).1 = (stepSpec m.endian (abs m) op).1 ∧
+    (stepModel m op).2 = (stepSpec m.endian (abs m) op).2 := by
+  cases op with
+  | store a v =>
+    obtain ⟨hwf, hsm, hfit⟩ := hd
+    by_cases h8 : v.bits % 8 = 0 ∧ 0 < v.bits
+    · obtain ⟨m', hst, I', habs, hend, _⟩ := store_spec I a v ⟨h8.1, h8.2, hwf, hsm⟩ hfit
+      simp only [stepModel, stepSpec, hst, h8, and_self, if_true]
+      refine ⟨?_, ?_, ?_, ?_⟩ <;> first | exact I' | exact hend | exact habs | trivial
+    · simp only [stepModel, stepSpec, store_non8' m a v h8, h8, if_false]
+      refine ⟨?_, ?_, ?_, ?_⟩ <;> first | exact I | trivial
+  | load a n =>
+    obtain ⟨h8, hpos, hsm, hfit⟩ := hd
+    simp only [stepModel, stepSpec, load_spec I a n h8 hpos hsm hfit]
+    refine ⟨?_, ?_, ?_, ?_⟩ <;> first | exact I | trivial
+  | setPerm a len p =>
+    exact ⟨setPermissions_inv I a len p, rfl, rfl, rfl⟩
+
+inductive HOp where
+  | on (h : Nat) (op : Op)
+  | clone (h h' : Nat)      -- h' := h.clone()
+
+def HOp.inDomain : HOp → Prop
+  | .on _ op => op.inDomain
+  | .clone _ _ => True
+
+def upd {α : Type} (σ : Nat → Option α) (h : Nat) (x : Option α) : Nat → Option α :=
+  fun k => if k = h then x else σ k
+
+def runH (σ : Nat → Option Mem) : List HOp → List Ans
+  | [] => []
+  | .on h op :: t =>
+    match σ h with
+    | some m => (stepModel m op).2 :: runH (upd σ h (some (stepModel m op).1)) t
+    | none => .fault :: runH σ t
+  | .clone h h' :: t => runH (upd σ h' (σ h)) t
+
+def runHSpec (σ : Nat → Option (Endian × Bytes)) : List HOp → List Ans
+  | [] => []
+  | .on h op :: t =>
+    match σ h with
+    | some (e, b) => (stepSpec e b op).2 :: runHSpec (upd σ h (some (e, (stepSpec e b op).1))) t
+    | none => .fault :: runHSpec σ t
+  | .clone h h' :: t => runHSpec (upd σ h' (σ h)) t
+
+def absH (σ : Nat → Option Mem) : Nat → Option (Endian × Bytes) :=
+  fun h => (σ h).map (fun m => (m.endian, abs m))
+
+theorem absH_upd (σ : Nat → Option Mem) (h : Nat) (x : Option Mem) :
+    absH (upd σ h x) = upd (absH σ) h (x.map (fun m => (m.endian, abs m))) := by
+  funext k
+  simp only [absH, upd]
+  split <;> rfl
+
+theorem history_handles_gen : ∀ (ops : List HOp) (σ : Nat → Option Mem),
+    (∀ h m, σ h = some m → Inv m) → (∀ op ∈ ops, op.inDomain) →
+    runH σ ops = runHSpec (absH σ) ops := by
+  intro ops
+  induction ops with
+  | nil => intro σ _ _; rfl
+  | cons op t ih =>
+    intro σ hI hdom
+    have hop := hdom op (List.mem_cons_self ..)
+    have ht : ∀ o ∈ t, o.inDomain := fun o ho => hdom o (List.mem_cons_of_mem _ ho)
+    cases op with
+    | on h o =>
+      cases hm : σ h with
+      | none =>
+        have : absH σ h = none := by simp [absH, hm]
+        simp only [runH, runHSpec, hm, this]
+        rw [ih σ hI ht]
+      | some m =>
+        have hs : absH σ h = some (m.endian, abs m) := by simp [absH, hm]
+        obtain ⟨I', he, ha, hans⟩ := step_agree (hI h m hm) o hop
+        simp only [runH, runHSpec, hm, hs, hans]
+        rw [ih _ (by
+          intro k mk hk
+          simp only [upd] at hk
+          split at hk
+          · simp only [Option.some.injEq] at hk; subst hk; exact I'
+          · exact hI k mk hk) ht, absH_upd, Option.map_some, he, ha]
+    | clone h h' =>
+      simp only [runH, runHSpec]
+      rw [ih _ (by
+        intro k mk hk
+        simp only [upd] at hk
+        split at hk
+        · exact hI h mk hk
+        · exact hI k mk hk) ht, absH_upd]
+      rfl
+
 end Paged
 end Falcon
